@@ -7,7 +7,8 @@
 (*       point: chosen \cap PieceOfSeq(xs, t2) # {}  (PieceOfSeq from Spline.tla, recomputed by TLC)           *)
 (*     - the returned value agrees with TLC's exact rational value within TolVal (relative, 1e-12 units)       *)
 (*     - curve_area equals the exact trapezoid sum and is additive within TolArea                             *)
-(*   ledger events   Ledger{nk,dec,irr,interp,c1,c2,nat,lin,unit,lookup}, AreaL{nk,dec,exact,add}               *)
+(*   ledger events   Ledger{nk,dec,irr,interp,c1,c2,nat,lin,unit,lookup}, Interp{np,dims,mono,val,first,ends,lin},  *)
+(*                   AreaL{nk,dec,exact,add}                                                                  *)
 (*     - 3..40 knots, spacing decades -4..4; every residual inside TolLedger, no wrong piece                   *)
 EXTENDS Spline, TraceBase
 CONSTANTS TolVal, TolArea, TolLedger
@@ -33,9 +34,14 @@ TLedger == /\ IsEv("Ledger") /\ Step /\ UNCHANGED <<xs, sc>>
            /\ Ev.lookup = 0
            /\ Ev.interp \in 0..TolLedger /\ Ev.c1 \in 0..TolLedger /\ Ev.c2 \in 0..TolLedger
            /\ Ev.nat \in 0..TolLedger /\ Ev.lin \in 0..TolLedger /\ Ev.unit \in 0..TolLedger
+\* interpolate(xy, np, out): np rows (x, spline(x)), abscissae strictly increasing from the first to the last knot, every value the value
+\* the two-call form returns at that abscissa, the first data point reproduced, straight lines reproduced
+TInterp == /\ IsEv("Interp") /\ Step /\ UNCHANGED <<xs, sc>>
+           /\ Ev.np >= 2 /\ Ev.dims = 1 /\ Ev.mono = 1
+           /\ Ev.val \in 0..TolLedger /\ Ev.first \in 0..TolLedger /\ Ev.ends \in 0..TolLedger /\ Ev.lin \in 0..TolLedger
 TAreaL == /\ IsEv("AreaL") /\ Step /\ UNCHANGED <<xs, sc>>
           /\ Ev.exact \in 0..TolArea /\ Ev.add \in 0..TolArea
-TNext == TKnots \/ TPiece \/ TVal \/ TArea \/ TLedger \/ TAreaL
+TNext == TKnots \/ TPiece \/ TVal \/ TArea \/ TLedger \/ TInterp \/ TAreaL
 TSpec == TInit /\ [][TNext]_tvars
 TraceAccepted == Accepted
 Diag == ShowCursor(l)
